@@ -23,6 +23,11 @@ CHECKS = {
    technique="TLA+ spec Stream (term algebra of copy/restore/step/edit/compare) checked by TLC; TLC-generated behaviours executed on real simulations and validated against Trace_Stream; exhaustive single-field perturbation audit of the descriptor table against the header's offsetof",
    text="TLC checks the Stream model (copy and every restore route reproduce the term, operations on one object never change another, expected comparison result) exhaustively for 2 objects and generates 120 (quick) / 1500 (thorough) behaviours of depth 10 over Step/Edit/Reproduce(copy|pickle|file|archive)/Compare on 3 objects; each is executed on real simulations starting from one of 23 reachable states (every integrator mid-run incl. unsynchronised ones, variational 1st/2nd order, MEGNO, tree+collisions, merged collision, test particles, rejected BS step, display settings) and TLC validates the logged digests and comparison answers (C diff and Python ==) against Trace_Stream: equal terms => bit-identical persisted content and 'equal'; untouched object keeps its bits; an edit of a non-walltime field => 'different'. Exhaustive audit: every scalar entry of reb_binary_field_descriptor_list (read from the built library) is perturbed on a copy through the offset computed from src/rebound.h by generated offsetof programs; required: descriptor offset = header offset, comparison reports it iff it is not a walltime field, exactly that stream field changes, and the value survives save/load.",
    note="Callbacks are re-attached by the harness after copy/restore (function pointers are documented as not persisted); save_messages (forced to 1 by the Python constructor) and array-count fields are excluded from the bit-flip audit; digest = SHA-256 with pointer members masked."),
+ "C05": dict(
+   category="model_checking", design_ref="DESIGN.md 4/C05",
+   technique="TLA+ Lattice (valid option combinations, enumerated by TLC) + Stream/Trace_Stream term algebra; every lattice point executed on the real library and validated by TLC; descriptor-table and non-persisted-member audits against the header",
+   text="TLC enumerates the 1988 valid option combinations of Lattice.tla (whfast coordinates x kernels x correctors x corrector2 x safe_mode x keep_unsynchronized, 18 SABA types, 9x9 EOS splittings, IAS15 adaptive modes, JANUS orders, TRACE pericentre modes, MERCURIUS, BS, LEAPFROG, SEI; gravity basic/compensated; test-particle types; variational order 0/1/2) with the validity rules transcribed from the integrators' init checks. Every point (thorough: x 4 restore routes = 7952 experiments; quick: a seeded sample of ~250) is built as a real simulation, advanced to a seeded save point (0/1/4 steps, incl. unsynchronised states and a preceding particle removal), restored via pickle / binary file / archive index / archive getSimulation, re-saved, and original and restored are stepped 17 times in lock step; TLC validates the Stream-shaped trace against Trace_Stream: after every action objects with the same term have bit-identical persisted content (SHA-256 over all fields, pointers masked) and compare equal. Audits: descriptor offsets vs header offsetof + per-field round trip (shared with C17); every scalar member of reb_simulation without a descriptor that is a documented public option must survive copy/pickle.",
+   note="Callbacks re-attached by the harness; for getSimulation on unsynchronised WHFast/SABA states 'bit-for-bit' is checked on the synchronised trajectory (the route changes keep_unsynchronized by design) and EOS/MERCURIUS unsynchronised states are restored through the archive index instead; particles are only removed at save points where the integrator keeps them synchronised; one fixed few-body system per test-particle class."),
 }
 
 NOT_YET = {
